@@ -798,7 +798,13 @@ func checkC11(w *World, r *Report) {
 		r.check(ok, "C11.globals", s.fn, "write "+s.g.Name(), s.st.Pos(), "control-dependent on Stepper != nil (or on a stepping flag that is)", "package-level variable written from the evaluator without a stepper being installed: shared between concurrent evaluations")
 	}
 	r.floor("C11.globals", "writes to package-level variables in the evaluator closure", len(stores), 10)
-	r.Notes = append(r.Notes, "C11.local (fresh scopes stored nowhere but the scope cell and MalFunc.Env; catch/let/parameter bindings written only into fresh scopes) is decided by the scope rules shared with C01/C03: see C01.scope", "shared values are immutable (C02), so sharing globals between evaluations needs no lock beyond the scope lock")
+	r.rule("C11.local", "local bindings of one evaluation are invisible to others: let variables, parameters and catch variables are written only into scopes created in the same region (fresh children), and the evaluator writes bindings into a non-fresh (possibly shared) scope only for def and defmacro (scope rules shared with C01.scope)")
+	if m := newEvalModel(w, e); m.ok {
+		ruleScope(m, r, "C11.local")
+	} else {
+		r.undecided("C11.local", nil, "evaluator model", token.NoPos, m.why)
+	}
+	r.Notes = append(r.Notes, "shared values are immutable (C02), so sharing globals between evaluations needs no lock beyond the scope lock")
 	r.Assumptions = append(r.Assumptions, "'returns exactly what it returns when run alone' is behaviour and not decided; races inside host-supplied builtins and process state (os.Setenv) are outside")
 }
 
